@@ -812,7 +812,7 @@ func (se *SessionExecutor) executeMultipleSQLInSlice(requestContext *util.Reques
 
 			// 1) 为当前这条 SQL 新开一个协程（go routine）去执行
 			go func(sql string, begin time.Time) {
-				queryResult, execErr := se.executeSingleSQLInSlice(pooledConn, currentSliceName, dbName, sql)
+				queryResult, execErr := se.executeCompleteSQLInSlice(pooledConn, currentSliceName, dbName, sql)
 				execResultChan <- executeResult{
 					result: queryResult,
 					err:    execErr,
@@ -1049,6 +1049,38 @@ func (se *SessionExecutor) executeSingleSQLInSlice(pooledConn backend.PooledConn
 	}
 	res, execErr := pooledConn.Execute(sql, se.GetNamespace().GetMaxResultSize())
 	return res, execErr
+}
+
+// executeCompleteSQLInSlice is executeSingleSQLInSlice for statements whose result is not streamed
+// to the client (sharded statements, whose results are merged in memory): the backend reader stops
+// after mysql.MaxPayloadLen bytes of rows and leaves the rest pending (MoreRowsExist), so the remaining
+// chunks are fetched into the same result here. Without this a shard result above that size was
+// silently cut short. The row limit keeps counting over the whole result.
+func (se *SessionExecutor) executeCompleteSQLInSlice(pooledConn backend.PooledConnect, sliceName, dbName, sql string) (retRes *mysql.Result, retErr error) {
+	defer func() {
+		if r := recover(); r != nil {
+			log.Warn(
+				"Recovered from panic in executeCompleteSQLInSlice goroutine, slice: %s, db: %s, sql: %s, error: %v, stack: %s",
+				sliceName,
+				dbName,
+				sql,
+				r,
+				debug.Stack(),
+			)
+			retErr = fmt.Errorf("caught executeCompleteSQLInSlice goroutine panic: %v, sql: %s", r, sql)
+		}
+	}()
+	res, execErr := se.executeSingleSQLInSlice(pooledConn, sliceName, dbName, sql)
+	if execErr != nil {
+		return nil, execErr
+	}
+	// only a result set can have rows pending
+	for res != nil && res.Resultset != nil && pooledConn.MoreRowsExist() {
+		if fetchErr := pooledConn.FetchMoreRows(res, se.GetNamespace().GetMaxResultSize()); fetchErr != nil {
+			return nil, fetchErr
+		}
+	}
+	return res, nil
 }
 
 func canHandleWithoutPlan(stmtType int) bool {
